@@ -10,20 +10,20 @@ Protocol lines of area `tsprops` (self-contained: programs + interleaving on one
     tsprops labels <variant> <multi> ...same...
 
     variant := fixed | shared            multi := 0 | 1 (labels carry the application id)
-    item    := serve <req> | construct <app>
+    item    := serve <req> | construct <app> | poke <app> <k> <v> | pokeattr <app> <name> <v> | idle <app>
     req     := R <app> <env> <debug 0|1> <custom codes n,n|-> B <op>* A <op>* <route>
                (application config that matters while serving: config.debug, codes with an
                @app.error handler, before_request / after_request hook statements)
     env     := - | <hexkey>:<val>&<hexkey>:<val>...          val := n | s<hex>
     route   := H <op>* <outcome> | NF <line> <text> | NA <line> <text> <allow> | BP <line>
     op      := path | method | query <k> | cookie <k> | header <name> <wsgikey> | envget <k> | body
-             | form <k> | file <name> <field> | url | status <code> <line> | rdstatus | sethdr <k> <v> | addhdr <k> <v>
+             | form <k> | file <name> <field> | url | kwargs | urlargs | scookie <k> | status <code> <line> | rdstatus | sethdr <k> <v> | addhdr <k> <v>
              | rdhdr <k> | setcookie <k> <rendered> | ctype <v> | copy | cpath <n> | cset <n> <k> <v>
              | cheader <n> <name> <wsgikey>
              | nested <req> | construct <app>
     outcome := ret <text> | retb <text> | empty | raise <code> <line> <body> <env> | error <code> <line> <text>
              | crash <line> <repr of the exception> | failjson <errors_map key> | failform <errors_map key>
-             | failmultipart <errors_map key>
+             | failmultipart <errors_map key> | redirect <location> <303 line>
 
 `run` answers, per thread, the observations in order (`<app>:<hex of the observation>`): the values
 handlers read (`r:`) and the responses produced (`w:`).  `labels` answers the labels of the visible
@@ -89,6 +89,7 @@ mutual
     | "failjson" :: e :: rest => some ([], .failJson (str e), rest)
     | "failform" :: e :: rest => some ([], .failForm (str e), rest)
     | "failmultipart" :: e :: rest => some ([], .failMultipart (str e), rest)
+    | "redirect" :: loc :: l :: rest => some ([], .redirect (str loc) (str l), rest)
     | toks => do
       let (op, rest) ← parseOp toks
       let (ops, out, rest) ← parseOps rest
@@ -104,6 +105,9 @@ mutual
     | "form" :: k :: r => some (.form (str k), r)
     | "file" :: n :: f :: r => some (.file (str n) (str f), r)
     | "url" :: r => some (.url, r)
+    | "kwargs" :: r => some (.kwargs, r)
+    | "urlargs" :: r => some (.urlArgs, r)
+    | "scookie" :: k :: r => some (.scookie (str k), r)
     | "status" :: c :: l :: r => do pure (.status (← c.toInt?) (str l), r)
     | "rdstatus" :: r => some (.rdStatus, r)
     | "sethdr" :: k :: v :: r => some (.setHdr (str k) (str v), r)
@@ -130,6 +134,15 @@ partial def parseItems : List String → Option (List Item × List String)
   | "construct" :: a :: rest => do
     let (its, rest) ← parseItems rest
     pure (.construct (← a.toNat?) :: its, rest)
+  | "poke" :: a :: k :: v :: rest => do
+    let (its, rest) ← parseItems rest
+    pure (.poke (← a.toNat?) (str k) (str v) :: its, rest)
+  | "pokeattr" :: a :: k :: v :: rest => do
+    let (its, rest) ← parseItems rest
+    pure (.pokeAttr (← a.toNat?) (str k) (str v) :: its, rest)
+  | "idle" :: a :: rest => do
+    let (its, rest) ← parseItems rest
+    pure (.idle (← a.toNat?) :: its, rest)
   | rest => some ([], rest)
 
 def evOf (n : Nat) : Ev := if n ≥ 1000 then .finish (n - 1000) else .step n
